@@ -79,14 +79,16 @@ void X__ZNSt7__cxx1112basic_stringIcSt11char_traitsIcESaIcEE9_M_mutateEmmPKcm(u8
   X__ZNSt7__cxx1112basic_stringIcSt11char_traitsIcESaIcEE10_M_replaceEmmPKcm(self, pos, len1, src, len2);
 }
 #define ENV_THROW(name, msg) void name { ENV_ASSERT(0, msg); ENV_ASSUME(0); }
+ENV_THROW(X__ZSt9terminatev(void), "std::terminate")
+#ifndef IR2C_EXCEPTIONS   /* units translated with ir2c --exceptions get the real thing from env_exc.c */
 ENV_THROW(X__ZSt20__throw_length_errorPKc(u8 *m), "throws std::length_error (terminate)")
 ENV_THROW(X__ZSt19__throw_logic_errorPKc(u8 *m), "throws std::logic_error (terminate)")
 ENV_THROW(X__ZSt24__throw_out_of_range_fmtPKcz(u8 *m, ...), "throws std::out_of_range (terminate)")
 ENV_THROW(X__ZSt25__throw_bad_function_callv(void), "throws std::bad_function_call (terminate)")
 ENV_THROW(X__ZSt20__throw_system_errori(u32 e), "throws std::system_error (terminate)")
 ENV_THROW(X__ZSt16__throw_bad_castv(void), "throws std::bad_cast (terminate)")
-ENV_THROW(X__ZSt9terminatev(void), "std::terminate")
 ENV_THROW(X__ZSt17__throw_bad_allocv(void), "throws std::bad_alloc")
+#endif
 /* basic_string(basic_string&&) */
 void X__ZNSt7__cxx1112basic_stringIcSt11char_traitsIcESaIcEEC2EOS4_(u8 *self, u8 *other)
 {
